@@ -277,4 +277,365 @@ def heom_kernels(repo):
     return C16_FILE % out, what
 
 
-STATIC = {"C16": heom_kernels}
+# ----------------------------------------------------------------------------------------------- the Taylor loop nests
+def _find_nests(stmts):
+    """outer `for` statements (also inside non-constant if/else, try) whose body holds a `for` that holds a `for`"""
+    out = []
+    for s in _live(stmts):
+        if isinstance(s, ast.For):
+            inner = [x for x in _live(s.body) if isinstance(x, ast.For)]
+            if any(any(isinstance(y, ast.For) for y in _live(x.body)) for x in inner):
+                out.append(s)
+        elif isinstance(s, ast.If):
+            out += _find_nests(s.body) + _find_nests(s.orelse)
+    return out
+
+
+def _split_for(stmts, what):
+    stmts = _live(stmts)
+    fors = [k for k, s in enumerate(stmts) if isinstance(s, ast.For)]
+    if len(fors) != 1:
+        raise Untranslatable("%s: %d loops where one is expected" % (what, len(fors)))
+    k = fors[0]
+    if stmts[k].orelse:
+        raise Untranslatable("%s: for/else" % what)
+    return stmts[:k], stmts[k], stmts[k + 1:]
+
+
+def _expr_of(src):
+    return ast.parse(src, mode="eval").body
+
+
+class VecExpr:
+    """expressions over the carrier V of the Taylor loop: variables, +, and whitelisted patterns with vector holes"""
+
+    def __init__(self, vars_, patterns):
+        self.vars = dict(vars_)                       # python name -> current Coq name
+        self.patterns = [(_expr_of(p), fmt) for p, fmt in patterns]
+
+    def e(self, node):
+        for tpl, fmt in self.patterns:
+            env = {}
+            try:
+                unify(tpl, node, env)
+            except Untranslatable:
+                continue
+            return fmt.format(**{k[2:]: self.e(v) for k, v in env.items()})
+        if isinstance(node, ast.Name):
+            if node.id in self.vars:
+                return self.vars[node.id]
+            raise Untranslatable("vector name %s" % node.id)
+        if isinstance(node, ast.BinOp) and isinstance(node.op, ast.Add):
+            return "(vadd %s %s)" % (self.e(node.left), self.e(node.right))
+        raise Untranslatable("vector expression %s" % ast.unparse(node)[:100])
+
+
+def _vec_block(stmts, ve, inplace, scalar_defs, fresh):
+    """straight-line statements over vectors -> list of 'let x := e in' lines; updates ve.vars"""
+    lines = []
+    for s in _live(stmts):
+        u = ast.unparse(s)
+        if isinstance(s, ast.Assign) and len(s.targets) == 1 and isinstance(s.targets[0], ast.Name):
+            v = s.targets[0].id
+            if ast.unparse(s.value) in scalar_defs:          # pref = self.dt / ll   (the prefactor c of this pass)
+                if v in ve.vars:
+                    raise Untranslatable("scalar assigned to a vector name: %s" % u)
+                continue
+            rhs = ve.e(s.value)
+            nm = fresh(v)
+            lines.append("let %s := %s in" % (nm, rhs))
+            ve.vars[v] = nm
+            continue
+        if isinstance(s, ast.Expr) and isinstance(s.value, ast.Call):
+            done = False
+            for tpl, fmt in inplace:
+                env = {}
+                try:
+                    unify(_expr_of(tpl), s.value, env)
+                except Untranslatable:
+                    continue
+                y = env["H_y"]
+                if not (isinstance(y, ast.Name) and y.id in ve.vars):
+                    raise Untranslatable("in-place target %s" % ast.unparse(y))
+                rhs = fmt.format(y=ve.vars[y.id], x=ve.e(env["H_x"]))
+                nm = fresh(y.id)
+                lines.append("let %s := %s in" % (nm, rhs))
+                ve.vars[y.id] = nm
+                done = True
+                break
+            if done:
+                continue
+        raise Untranslatable("loop-body statement %s" % u[:100])
+    return lines
+
+
+OUTER_ITERS = {"self.TimeAxis.data[1:self.Nt]", "range(1, self.Nt)", "self.timeAxis.data[1:self.Nt]", "self.timeaxis.data[1:self.Nt]"}
+JJ_ITERS = {"range(0, self.Nref)", "range(self.Nref)"}
+
+
+def taylor_nest(nest, kind, name, dt_text, patterns, inplace, pre_outer_ok, pre_inner_ok, post_outer_ok, F_term, extra_vars):
+    """one loop nest -> Gallina section text with its lemmas; returns (text, facts)"""
+    if ast.unparse(nest.iter) not in OUTER_ITERS:
+        raise Untranslatable("%s: outer iterator %s" % (name, ast.unparse(nest.iter)))
+    pre_o, jjloop, post_o = _split_for(nest.body, name + " outer body")
+    if ast.unparse(jjloop.iter) not in JJ_ITERS:
+        raise Untranslatable("%s: refinement iterator %s" % (name, ast.unparse(jjloop.iter)))
+    pre_i, llloop, post_i = _split_for(jjloop.body, name + " refinement body")
+    env = {}
+    unify(_expr_of("range(H_lo, H_hi)"), llloop.iter, env, name + " order loop")
+    lo, hi = zexpr(env, "H_lo", {"L": "L"}), zexpr(env, "H_hi", {"L": "L"})
+    for s in pre_o:
+        if ast.unparse(s) not in pre_outer_ok and not ast.unparse(s).startswith(("qr.printlog(", "qr.log_")):
+            raise Untranslatable("%s: statement before the refinement loop: %s" % (name, ast.unparse(s)[:80]))
+    for s in pre_i:
+        if ast.unparse(s) not in pre_inner_ok:
+            raise Untranslatable("%s: statement before the order loop: %s" % (name, ast.unparse(s)[:80]))
+    # after the order loop: [X2 = self._APPLY_DEPH(tt, X2)] ; X1 = X2 ; [indxR = walk]
+    post_i = _live(post_i)
+    deph, walk, copy = False, None, None
+    for s in post_i:
+        u = ast.unparse(s)
+        if isinstance(s, ast.Assign) and isinstance(s.targets[0], ast.Name) and isinstance(s.value, ast.Name):
+            if copy is not None or walk is not None:
+                raise Untranslatable("%s: %s after the copy" % (name, u))
+            copy = (s.targets[0].id, s.value.id)
+        elif isinstance(s, ast.Assign) and isinstance(s.value, ast.Call) and ast.unparse(s.value.func) == "self._APPLY_DEPH":
+            if copy is not None or deph:
+                raise Untranslatable("%s: dephasing after the copy" % name)
+            a = s.value.args
+            if not (len(a) == 2 and ast.unparse(a[0]) == "tt" and isinstance(a[1], ast.Name) and a[1].id == s.targets[0].id):
+                raise Untranslatable("%s: %s" % (name, u))
+            deph = s.targets[0].id
+        elif isinstance(s, ast.Assign) and ast.unparse(s.targets[0]) == "indxR":
+            if copy is None:
+                raise Untranslatable("%s: index walk before the copy" % name)
+            walk = zexpr({"H": s.value}, "H", {"indxR": "indxR", "stride": "stride", "cutoff_indx": "cutoff"}) \
+                if not isinstance(s.value, ast.Call) else _minmax(s.value)
+        else:
+            raise Untranslatable("%s: statement after the order loop: %s" % (name, u[:80]))
+    if copy is None:
+        raise Untranslatable("%s: rho1 = rho2 missing after the order loop" % name)
+    v1, v2 = copy
+    if deph and deph != v2:
+        raise Untranslatable("%s: dephasing applied to %s" % (name, deph))
+    stored = False
+    for s in _live(post_o):
+        u = ast.unparse(s)
+        if u in [t % v2 for t in ("pr.data[indx, :, :] = %s", "pr.data[indx, :] = %s", "pops[indx, :] = %s")]:
+            stored = True
+        elif u not in post_outer_ok:
+            raise Untranslatable("%s: statement after the refinement loop: %s" % (name, u[:80]))
+    if not stored and "STORED" not in post_outer_ok:
+        raise Untranslatable("%s: the state is not stored after the refinement loop" % name)
+    # the order-loop body
+    counter = {}
+
+    def fresh(v):
+        counter[v] = counter.get(v, 0) + 1
+        return "%s_%d" % (v, counter[v])
+    ve = VecExpr({v1: "r1", v2: "r2"}, patterns)
+    lines = _vec_block(llloop.body, ve, inplace, {dt_text + " / ll"}, fresh)
+    body = "\n      ".join(lines + ["(%s, %s)" % (ve.vars[v1], ve.vars[v2])])
+    sec = "Gen_%s" % name
+    txt = []
+    txt.append("Section %s.\n  Variables (S V : Type) (vadd : V -> V -> V)%s.\n" % (sec, extra_vars))
+    txt.append("  Definition %s_F (c : S) (x : V) : V := %s.\n" % (name, F_term))
+    txt.append("  Definition %s_body (c : S) (st : V * V) : V * V :=\n      let r1 := fst st in let r2 := snd st in\n      %s.\n" % (name, body))
+    txt.append("  Lemma %s_body_is_taylor : forall c st, %s_body c st = taylor_body vadd %s_F c st.\n"
+               "  Proof. intros c [r1 r2]. reflexivity. Qed.\n" % (name, name, name))
+    txt.append("End %s.\n" % sec)
+    txt.append("Definition %s_lo : Z := %s.\nDefinition %s_hi (L : Z) : Z := %s.\n" % (name, lo, name, hi))
+    txt.append("Lemma %s_order_range : forall L, %s_lo = 1 /\\ %s_hi L = L + 1.\nProof. intros; unfold %s_lo, %s_hi; lia. Qed.\n"
+               % (name, name, name, name, name))
+    if walk is not None:
+        txt.append("Definition %s_walk (indxR stride cutoff : Z) : Z := %s.\n" % (name, walk))
+        txt.append("Lemma %s_walk_is_model : forall indxR stride cutoff : nat, (1 <= cutoff)%%nat ->\n"
+                   "  %s_walk (Z.of_nat indxR) (Z.of_nat stride) (Z.of_nat cutoff) = Z.of_nat (walk_next WalkRepaired indxR stride cutoff).\n"
+                   "Proof. intros; unfold %s_walk, walk_next; lia. Qed.\n" % (name, name, name))
+    return "".join(txt), {"dephasing": bool(deph), "walk": walk is not None}
+
+
+def _minmax(call):
+    f = ast.unparse(call.func)
+    if f not in ("min", "max") or len(call.args) != 2 or call.keywords:
+        raise Untranslatable("call %s" % ast.unparse(call)[:60])
+    ex = Expr("Z", {"indxR": "indxR", "stride": "stride", "cutoff_indx": "cutoff"})
+    return "(Z.%s %s %s)" % (f, ex.e(call.args[0]), ex.e(call.args[1]))
+
+
+TAYLOR_HEAD = """(* GENERATED on every run by harness/translate2.py: the short-exponential loop nests of %s.
+   Each nest was matched against the skeleton  for ii: [pre]; for jj in range(Nref): [pre]; for ll in range(lo,hi): BODY;
+   [dephasing]; X1 = X2; [index walk]  /  store X2; indx += 1  and BODY translated over an abstract carrier. *)
+From Coq Require Import ZArith List Bool Arith Lia.
+From QV Require Import Base.Taylor Base.TaylorG Proofs.TaylorGen%s.
+Import ListNotations.
+Open Scope Z_scope.
+"""
+
+RDM_PRE_OUTER = {"tNt = self.TimeAxis.data[indx - 1]", "IR = self._GET_IR(indx)"}
+RDM_PRE_INNER = {"tt = tNt + jj * self.dt", "RR = self.RelaxationTensor.data[indxR, :, :, :, :]",
+                 "if self.has_Iterm:\n    IR = self.RelaxationTensor.Iterm[indxR, :, :]"}
+RDM_POST_OUTER = {"indx += 1"}
+
+
+def _method(path, cls, meth):
+    """methods with two leading underscores are stored under their source name"""
+    return _src_of(path, cls + "." + meth)
+
+
+def pop_taylor(repo):
+    fn = _method(repo + "/quantarhei/qm/propagators/poppropagator.py", "PopulationPropagator", "_propagate_short_exp")
+    nests = _find_nests(fn.body)
+    if len(nests) != 1:
+        raise Untranslatable("poppropagator: %d loop nests" % len(nests))
+    t, _ = taylor_nest(nests[0], "pop", "pop", "self.dt", [("pref * numpy.dot(self.KK.data, H_x)", "(vscale c (G {x}))")], [],
+                       set(), set(), {"indx += 1"}, "vscale c (G x)", " (vscale : S -> V -> V) (G : V -> V)")
+    t += ("Lemma pop_refined_is_tstep : forall S V vadd vscale G prefs r,\n"
+          "  snd (fold_left (fun st c => pop_body S V vadd vscale G c st) prefs (r, r)) = tstep vadd vscale G prefs r.\n"
+          "Proof. intros. apply fold_body_is_tstep. intros c st. rewrite pop_body_is_taylor. reflexivity. Qed.\n")
+    return TAYLOR_HEAD % ("poppropagator.py:PopulationPropagator._propagate_short_exp", "") + t, \
+        ["poppropagator.py:PopulationPropagator._propagate_short_exp (loop nest and order-loop body)"]
+
+
+def rdm_taylor(repo):
+    path = repo + "/quantarhei/qm/propagators/rdmpropagator.py"
+    cls = "ReducedDensityMatrixPropagator"
+    out, what = [], []
+    com = [("-_COM(HH, ll, self.dt, H_x)", "(com c {x})"), ("-_COM(HH, ll, self.dt, H_x, has_NonHerm=self.has_NonHerm)", "(com c {x})")]
+    com_td = [("-_COM(HH, ll, dt, H_x)", "(com c {x})")]
+    # Hamiltonian only
+    fn = _method(path, cls, "__propagate_short_exp")
+    nests = _find_nests(fn.body)
+    if len(nests) != 1:
+        raise Untranslatable("__propagate_short_exp: %d loop nests" % len(nests))
+    t, _ = taylor_nest(nests[0], "ham", "rdm_ham", "self.dt", com, [], set(), set(), RDM_POST_OUTER, "com c x", " (com : S -> V -> V)")
+    out.append(t)
+    what.append("rdmpropagator.py:__propagate_short_exp")
+    # tensor, with and without pure dephasing
+    for meth, tag, inpl, fvars, fterm in (
+            ("__propagate_short_exp_with_relaxation", "rdm_tens", [("_TTI(H_y, RR, IR, ll, self.dt, H_x, L=L)", "(vadd {y} (tti c {x}))")],
+             " (com tti : S -> V -> V)", "vadd (com c x) (tti c x)"),
+            ("__propagate_short_exp_with_rel_operators", "rdm_ops", [("_OTI(H_y, Km, Kd, Lm, Ld, ll, self.dt, H_x)", "(vadd {y} (oti c {x}))")],
+             " (com oti : S -> V -> V)", "vadd (com c x) (oti c x)")):
+        fn = _method(path, cls, meth)
+        nests = _find_nests(fn.body)
+        if len(nests) != 2:
+            raise Untranslatable("%s: %d loop nests where the dephasing and the plain one are expected" % (meth, len(nests)))
+        facts = []
+        for k, nest in enumerate(nests):
+            t, f = taylor_nest(nest, "tens", "%s_%d" % (tag, k), "self.dt", com, inpl, RDM_PRE_OUTER, RDM_PRE_INNER, RDM_POST_OUTER, fterm, fvars)
+            out.append(t)
+            facts.append(f["dephasing"])
+        if facts != [True, False]:
+            raise Untranslatable("%s: dephasing branch / plain branch out of order (%s)" % (meth, facts))
+        what.append("rdmpropagator.py:%s (both nests)" % meth)
+    # time-dependent tensor with the index walk
+    fn = _method(path, cls, "__propagate_short_exp_with_TD_relaxation")
+    nests = _find_nests(fn.body)
+    if len(nests) != 1:
+        raise Untranslatable("TD relaxation: %d loop nests" % len(nests))
+    t, f = taylor_nest(nests[0], "td", "rdm_td", "dt", com_td, [("_TTI(H_y, RR, IR, ll, dt, H_x, L=L)", "(vadd {y} (tti c {x}))")],
+                       RDM_PRE_OUTER, RDM_PRE_INNER, RDM_POST_OUTER, "vadd (com c x) (tti c x)", " (com tti : S -> V -> V)")
+    if not f["walk"]:
+        raise Untranslatable("TD relaxation: the tensor index is not advanced after the refined step")
+    # start of the walk and the stride
+    env = {}
+    starts = [s for s in _live(fn.body) if isinstance(s, ast.Assign) and ast.unparse(s.targets[0]) == "indxR"]
+    if len(starts) != 1:
+        raise Untranslatable("TD relaxation: indxR initialised %d times" % len(starts))
+    t += "Definition rdm_td_start : Z := %s.\nLemma rdm_td_start_is_model : rdm_td_start = 1.\nProof. reflexivity. Qed.\n" % Expr("Z", {}).e(starts[0].value)
+    out.append(t)
+    what.append("rdmpropagator.py:__propagate_short_exp_with_TD_relaxation (nest, index walk, start)")
+    # state vectors
+    fn = _method(repo + "/quantarhei/qm/propagators/svpropagator.py", "StateVectorPropagator", "_propagate_short_exp")
+    nests = _find_nests(fn.body)
+    if len(nests) != 1:
+        raise Untranslatable("svpropagator: %d loop nests" % len(nests))
+    t, _ = taylor_nest(nests[0], "sv", "sv", "self.dt", [("-1j * pref * numpy.dot(HH, H_x)", "(vscale c (G {x}))")], [],
+                       set(), set(), RDM_POST_OUTER, "vscale c (G x)", " (vscale : S -> V -> V) (G : V -> V)")
+    out.append(t)
+    what.append("svpropagator.py:StateVectorPropagator._propagate_short_exp")
+    return "\n".join(out), what
+
+
+def heom_taylor(repo):
+    fn = _method(repo + "/quantarhei/qm/liouvillespace/heom.py", "KTHierarchyPropagator", "propagate")
+    nests = _find_nests(fn.body)
+    if len(nests) != 1:
+        raise Untranslatable("heom propagate: %d loop nests" % len(nests))
+    post = {"indx += 1", "self.hy.ado = ado2", "STORED",
+            "if free_hierarchy:\n    ker[indx, :, :] = ado2[1, :, :]\nelse:\n    rhot.data[indx, :, :] = ado2[0, :, :]",
+            "if report_hierarchy:\n    for kk in range(self.hy.hsize):\n        self.hy.hpop[indx, kk] = numpy.trace(ado2[kk, :, :])"}
+    t, _ = taylor_nest(nests[0], "heom", "heom", "self.dt",
+                       [("self._ado_cros_rhs(H_x, self.dt / ll, slevel)", "(cros c {x})"), ("self._ado_self_rhs(H_x, self.dt / ll, slevel)", "(self_ c {x})")],
+                       [], set(), set(), post, "vadd (cros c x) (self_ c x)", " (cros self_ : S -> V -> V)")
+    return t, ["heom.py:KTHierarchyPropagator.propagate (loop nest and order-loop body)"]
+
+
+def c16_static(repo):
+    a, wa = heom_kernels(repo)
+    b, wb = heom_taylor(repo)
+    return a + "\nFrom QV Require Import Base.Taylor Base.TaylorG Proofs.TaylorGen.\n" + b, wa + wb
+
+
+T_SETRATE = """
+def set_rate(self, pos, value):
+    N = pos[0]
+    M = pos[1]
+    if H_g1 == H_g2:
+        raise Exception("Diagonal (depopulation) rates cannot be set")
+    orig_val = self.data[H_r1, H_c1]
+    self.data[H_r2, H_c2] = H_v2
+    self.data[H_r3, H_c3] += H_v3
+    self.data[H_r4, H_c4] -= H_v4
+"""
+
+C17_SETRATE = """
+From QV Require Import Base.Alg Base.Sums Base.Mat Model.C17.
+Section GenSetRate.
+  Context {R : StarRing}.
+  Definition gen_guard (N M : Z) : bool := (%(g1)s =? %(g2)s).
+  Definition gen_set_rate (A : @mat R) (N M : nat) (value : R) : @mat R :=
+    let orig_val := A %(r1)s %(c1)s in
+    let A1 := upd A %(r2)s %(c2)s %(v2)s in
+    let A2 := upd A1 %(r3)s %(c3)s (radd R (A1 %(r3)s %(c3)s) %(v3)s) in
+    upd A2 %(r4)s %(c4)s (rsub R (A2 %(r4)s %(c4)s) %(v4)s).
+  Lemma gen_set_rate_is_model : forall n (A : @mat R) pos v,
+    set_rate n A pos v = (let '(N, M) := pos in
+                          if gen_guard N M then None
+                          else match pyidx n N, pyidx n M with
+                               | Some a, Some b => Some (gen_set_rate A a b v)
+                               | _, _ => None
+                               end).
+  Proof.
+    intros n A [N M] v.
+    assert (Hg : gen_guard N M = (N =? M)%%Z) by (unfold gen_guard; apply Bool.eq_iff_eq_true; rewrite !Z.eqb_eq; lia).
+    rewrite Hg. reflexivity.
+  Qed.
+End GenSetRate.
+"""
+
+
+def set_rate(repo):
+    env = match(repo + "/quantarhei/qm/liouvillespace/rates/ratematrix.py", "RateMatrix.set_rate", T_SETRATE)
+    out = {}
+    exz = Expr("Z", {"N": "N", "M": "M"})
+    out["g1"], out["g2"] = exz.e(env["H_g1"]), exz.e(env["H_g2"])
+    for h in ("r1", "c1", "r2", "c2", "r3", "c3", "r4", "c4"):
+        node = env["H_" + h]
+        if not (isinstance(node, ast.Name) and node.id in ("N", "M")):
+            raise Untranslatable("set_rate index %s" % ast.unparse(node))
+        out[h] = node.id
+    exr = Expr("ring", {"orig_val": "orig_val", "value": "value"})
+    for h in ("v2", "v3", "v4"):
+        out[h] = exr.e(env["H_" + h])
+    return C17_SETRATE % out, ["ratematrix.py:RateMatrix.set_rate"]
+
+
+def c17_static(repo):
+    a, wa = pop_taylor(repo)
+    b, wb = set_rate(repo)
+    return a + b, wa + wb
+
+
+STATIC = {"C16": c16_static, "C17": c17_static}
